@@ -18,7 +18,7 @@ ASSUMPTIONS = ['agreement is not correctness: a common-mode error is invisible h
 BUDGET = {'quick': 170, 'thorough': 1500}
 CHUNK = {'quick': 6, 'thorough': 20}
 CASE_TIMEOUT = 300
-REQUIRED = ['node_level_models_with_shuffled_nodelist', 'graphs_edited_in_place_after_earlier_calls', 'multigraph_inputs', 'familyA_compared', 'familyB_compared', 'familyB_discrete_compared', 'familyC_SIR_compared', 'familyC_SIS_compared', 'familyD_SIR_compared',
+REQUIRED = ['direct_dense_heterogeneous_pairwise_calls', 'node_level_models_with_shuffled_nodelist', 'graphs_edited_in_place_after_earlier_calls', 'multigraph_inputs', 'familyA_compared', 'familyB_compared', 'familyB_discrete_compared', 'familyC_SIR_compared', 'familyC_SIS_compared', 'familyD_SIR_compared',
             'familyD_SIS_compared', 'pairs_compared']
 
 
@@ -150,6 +150,13 @@ def run_case(case):
                 extra['nodelist'] = nl
                 bump(res, 'node_level_models_with_shuffled_nodelist')
             call(nm, getattr(EoN, nm), G, tau, gamma, rho=rho, **dict(tk, **extra))
+        if not case['graph'].get('multi'):
+            # the heterogeneous pairwise model called directly in its default form (Ks=None: arrays indexed by degree 0..k, the classes
+            # below k empty), fed with the same uniformly random initial condition
+            dc = odereg.build({'entry': '%s_heterogeneous_pairwise' % m, 'graph': dict(case['graph']), 'tau': tau, 'gamma': gamma, 'ic': 'rho',
+                               'rho': (rho if rho is not None else 1.0 / N), 'tmin': case['tmin'], 'tspan': case['tspan'], 'tcount': case['tcount'], 'dense_Ks': True})
+            call('%s_heterogeneous_pairwise(direct, Ks=None)' % m, dc.f, *dc.args, **dc.kw)
+            bump(res, 'direct_dense_heterogeneous_pairwise_calls')
         ncomp = 3 if m == 'SIR' else 2
     else:
         m = fam[2:]
